@@ -13,7 +13,7 @@ import z3
 
 from symx import core
 from symx import pysdc as sp
-from symx.core import SymReal, R, rv, frac, prove, model_value
+from symx.core import SymReal, R, rv, frac, prove, model_value, Ctx
 
 from pySDC.core.base_transfer import BaseTransfer
 from pySDC.core.collocation import CollBase
@@ -220,6 +220,82 @@ def timeobj_case(rep, Mf, Mc):
                                       {'task': ['timeobj', Mf, Mc], 'pair': [qf, qc], 'coefficients': coefs, 'deviation': float(dev)})
                         return
                     rep.unreproduced(f'{name}:{lab}', coefs)
+            # ... and the OPERATOR the object applies to data is that matrix: prolong() adds Pcoll (coarse correction) to every fine node value,
+            # restrict() puts Rcoll (fine values) on every coarse node -- decided on arbitrary symbolic node values (identity in space)
+            try:
+                c_ = Ctx()
+                Ctx.cur = c_
+                try:
+                    Lf, Lc = st.levels
+                    Lf.status.time = Lc.status.time = 0.0
+                    Pf, Pc = Lf.prob, Lc.prob
+                    gv, fv = [], []
+                    Lf.u[0], _ = sp_.fresh_mesh(Pf, 'f0')
+                    Lf.f[0] = Pf.eval_f(Lf.u[0], 0.0)
+                    for m_ in range(1, Mf + 1):
+                        Lf.u[m_], v = sp_.fresh_mesh(Pf, f'f{m_}')
+                        Lf.f[m_] = Pf.eval_f(Lf.u[m_], 0.0)
+                        fv.append(v[0])
+                    Lf.status.unlocked = True
+                    bt.restrict()
+                    restricted = [R(Lc.u[n_][0]) for n_ in range(1, Mc + 1)]
+                    for n_ in range(1, Mc + 1):
+                        Lc.u[n_], v = sp_.fresh_mesh(Pc, f'g{n_}')
+                        gv.append(v[0])
+                    before = [R(Lf.u[m_][0]) for m_ in range(1, Mf + 1)]
+                    bt.prolong()
+                    after = [R(Lf.u[m_][0]) for m_ in range(1, Mf + 1)]
+                    uold = [R(Lc.uold[n_][0]) for n_ in range(1, Mc + 1)]
+                finally:
+                    Ctx.cur = None
+                Pm, Rm = np.asarray(bt.Pcoll, dtype=float), np.asarray(bt.Rcoll, dtype=float)
+                g1 = z3.And([restricted[n_] == sum(rv(Rm[n_, m_]) * fv[m_] for m_ in range(Mf)) for n_ in range(Mc)])
+                g2 = z3.And([after[m_] - before[m_] == sum(rv(Pm[m_, n_]) * (gv[n_] - uold[n_]) for n_ in range(Mc)) for m_ in range(Mf)])
+                for lab, g in (('restrict', g1), ('prolong', g2)):
+                    res, m = prove(g, box(fv + gv), name=f'{name}:{lab}-applies-its-matrix')
+                    rep.ob(f'{name}:{lab}-applies-its-matrix-to-every-node-value', res)
+                    if res == 'sat':
+                        rep.replayed += 1
+                        vals = {str(v): float(model_value(m, v)) for v in fv + gv}
+                        dev = timeobj_float(Mf, Mc, qf, qc, vals, lab)
+                        if dev > 1e-10:
+                            rep.violation(f'{PID}/time-transfer/object/{lab}-on-data', f'{name}: {lab}() of the BaseTransfer object does not apply its node-to-node matrix to the node values (deviation {dev:.3e} on the real float classes)',
+                                          {'task': ['timeobj', Mf, Mc], 'pair': [qf, qc], 'values': vals, 'op': lab, 'deviation': dev})
+                        else:
+                            rep.unreproduced(f'{name}:{lab}-on-data', vals)
+            except Exception as e:
+                rep.side(name + ':operators-run-on-symbolic-data', False, f'{type(e).__name__}: {e}')
+
+
+def timeobj_float(Mf, Mc, qf, qc, vals, lab):
+    """the same on the real float classes: deviation of restrict() / prolong() of a real BaseTransfer from its own matrices applied to the node values"""
+    from harness import c10
+    from harness import sweepspec as ss
+
+    st = c10.make_step((Mf, Mc), 'implicit', False, qts=(qf, qc), qd='IE', prob=ss.FLin, pparams={'A': np.array([[-1.0]])}, space=c10.FloatInjectT)
+    bt = c10.connect(st)[0]
+    Lf, Lc = st.levels
+    Lf.status.time = Lc.status.time = 0.0
+    Pf, Pc = Lf.prob, Lc.prob
+    fvals = np.array([vals[f'f{m_}_0'] for m_ in range(1, Mf + 1)])
+    gvals = np.array([vals[f'g{n_}_0'] for n_ in range(1, Mc + 1)])
+    Lf.u[0] = Pf.dtype_u(Pf.init, val=0.5)
+    Lf.f[0] = Pf.eval_f(Lf.u[0], 0.0)
+    for m_ in range(1, Mf + 1):
+        Lf.u[m_] = Pf.dtype_u(Pf.init, val=float(fvals[m_ - 1]))
+        Lf.f[m_] = Pf.eval_f(Lf.u[m_], 0.0)
+    Lf.status.unlocked = True
+    bt.restrict()
+    restricted = np.array([float(Lc.u[n_][0]) for n_ in range(1, Mc + 1)])
+    Pm, Rm = np.asarray(bt.Pcoll, dtype=float), np.asarray(bt.Rcoll, dtype=float)
+    if lab == 'restrict':
+        return float(np.abs(restricted - Rm @ fvals).max())
+    uold = np.array([float(Lc.uold[n_][0]) for n_ in range(1, Mc + 1)])
+    for n_ in range(1, Mc + 1):
+        Lc.u[n_] = Pc.dtype_u(Pc.init, val=float(gvals[n_ - 1]))
+    bt.prolong()
+    after = np.array([float(Lf.u[m_][0]) for m_ in range(1, Mf + 1)])
+    return float(np.abs(after - fvals - Pm @ (gvals - uold)).max())
 
 
 # ------------------------------------------------------------------------------------------------ space
@@ -727,6 +803,10 @@ def replay(path):
     if t[0] == 'ncomp':
         dev = ncomp_float(*t[1:], d['op'], d['values'])
         print(d['op'], 'of the two-component field vs. of its components: deviation', dev)
+        bad = dev > 1e-10
+    elif t[0] == 'timeobj' and d.get('op'):
+        dev = timeobj_float(t[1], t[2], d['pair'][0], d['pair'][1], d['values'], d['op'])
+        print(d['op'] + '() of the real BaseTransfer object vs. its own matrix applied to the node values: deviation', dev)
         bad = dev > 1e-10
     elif t[0] == 'space':
         fp, cp = GridProb(t[1], t[4], t[6], np.dtype('float64')), GridProb(t[2], t[4], t[6], np.dtype('float64'))
